@@ -456,7 +456,7 @@ pub fn run(ctx: &Ctx) -> Result<Evidence, String> {
         Tier::Quick => (6, 8, 4),
         Tier::Thorough => (16, 20, 9),
     };
-    let mut ev = Evidence::new("cases = (array length, selector, context): the complete cube lengths 0..=L x start,end in {absent} u [-B,B] x step in {absent} u [-S,S] in 7 contexts (root, under a name, under .., as existence test inside a filter, and inside an existence test followed by a name / an index / a filter that only some elements of the window satisfy) and all indices [-(B+4),B+4] in 6 contexts (incl. singular-query index in a comparison); extremes +-(2^53-1), +-(2^53-2), +-2^31, +-2^32 combined in every position x lengths 0..3; every selector on non-arrays. Every case runs through the parser AND as a programmatically built query, in isolated workers under the release and the overflow-checked build. Oracle: RFC 9535 2.3.4.2.2 pseudo-code transcribed with i128 arithmetic; termination judged on worker CPU time. Scale family: results beyond 2^20 nodes (1.1 million rows, 3 x 400000 and 2 x 1048577 elements; count, node identity and path of every result). Non-trivial = distinct cells with a non-empty expected selection or an out-of-range bound.");
+    let mut ev = Evidence::new("cases = (array length, selector, context): the complete cube lengths 0..=L x start,end in {absent} u [-B,B] x step in {absent} u [-S,S] in 7 contexts (root, under a name, under .., as existence test inside a filter, and inside an existence test followed by a name / an index / a filter that only some elements of the window satisfy) and all indices [-(B+4),B+4] in 6 contexts (incl. singular-query index in a comparison); extremes +-(2^53-1), +-(2^53-2), +-2^31, +-2^32 combined in every position x lengths 0..3; every selector on non-arrays. Every case runs through the parser AND as a programmatically built query, in isolated workers under the release and the overflow-checked build. Oracle: RFC 9535 2.3.4.2.2 pseudo-code transcribed with i128 arithmetic; termination judged on worker CPU time. Large-array slices (lengths 2047..65537, bounds at both ends / interior / beyond, steps +-1..+-64). Scale family: ragged tables of 256..4097 rows; results beyond 2^20 nodes (1.1 million rows, 3 x 400000 and 2 x 1048577 elements; count, node identity and path of every result). Non-trivial = distinct cells with a non-empty expected selection or an out-of-range bound.");
     ev.set("exhaustive", json!(true));
     ev.set("cube", json!({"max_length": max_len, "bound_range": b, "step_range": s}));
     ev.set("profiles", json!(profiles));
